@@ -165,7 +165,7 @@ def extract(repo=None):
                     problems = []
                     for d in destroyed:
                         guarded = re.search(r"%s\s*==\s*(?:NULL|\(\(void\s*\*\)\s*0\)|0)" % re.escape(d), rbody) is not None
-                        recreated = re.search(r"%s\s*=(?!=)" % re.escape(d), rbody) is not None
+                        recreated = re.search(r"%s\s*=(?!=)|&\s*%s\b" % (re.escape(d), re.escape(d)), rbody) is not None
                         if d not in assigned and (guarded or not recreated):
                             problems.append("destroys %s without resetting it (creation is guarded by %s == NULL)" % (d, d)
                                             if guarded else "destroys %s, neither reset here nor re-created by %s" % (d, f))
